@@ -26,6 +26,8 @@ struct %(IT)s { struct %(VEC)s *v; unsigned long idx; };
 #define %(ACC)s_element_type__store__2 vf_abool_store
 #define std_shared_ptr_std_atomic_bool_gnu_cxx_S_atomic %(SP)s
 #define std_shared_ptr_std_atomic_bool_gnu_cxx_S_atomic__op_bool__0(s) ((s)->p != 0)
+#define ext_op_ne__std_shared_ptr_std_atomic_bool_ref_nullptr_t(s, n) ((s)->p != 0)
+#define ext_op_eq__std_shared_ptr_std_atomic_bool_ref_nullptr_t(s, n) ((s)->p == 0)
 #define %(SP)s__ctor_copy vf_sp_ctor_copy
 #define %(SP)s__ctor_move vf_sp_ctor_move
 #define %(SP)s__op_assign__1 vf_sp_assign_move
